@@ -159,6 +159,9 @@ def run_verus_unit(uname, workdir, prop=None):
                 if m:
                     label = m.group(1)
                     break
+        if kind == 'assert' and o and o.get('line') is None and fnkey in u.fns and u.fns[fnkey].get('proof_label'):
+            # an assertion inside proof text spliced in by the unit: it is a proof step of the named clause
+            label = u.fns[fnkey]['proof_label']
         if fnkey.startswith('canary:'):
             res['canaries'].append(dict(fn=fnkey, failed=True))
             continue
